@@ -15,6 +15,13 @@ CHECKS = {
     ),
 }
 
+CHECKS["C02"] = dict(
+    cat="exploration", ref="DESIGN.md §3 C02",
+    technique="bounded-exhaustive enumeration of expression ASTs (all <=1-operator ASTs over a 48-leaf boundary set, all 2-operator shapes x ordered operator pairs) evaluated by the real Lexer/MacroExpander/ExpressionEvaluator against a direct AST evaluator; every case cross-checked with gcc -E in batch",
+    text="Every enumerated AST is evaluated by the reference directly on the tree (no reference parser), printed with only the parentheses C requires, and run through the real code; truth value and pinned value `(E) == V` must match ISO C. The n<=1 universe also goes through FileParser+finder.find, and ill-formed #elif expressions after a taken branch must not be evaluated.",
+    note="Reference evaluator cexpr.py (0 disagreements with gcc on every enumerated case); undefined / implementation-defined cases excluded; one recorded finding (unsuffixed hex >= 2^63, pinned by the repo's own test).",
+)
+
 PENDING = {}
 
 
